@@ -285,6 +285,10 @@ def _as_base_exponent(f):
     if isinstance(f, Power):
         base, exponent = f.ufl_operands
         if isinstance(exponent, ScalarValue) and not isinstance(exponent._value, complex):
+            if exponent._value != int(exponent._value):
+                # (b**p)**q == b**(p*q) only holds in general for
+                # integer q: keep the operand as an opaque base
+                return base, exponent._value
             pair = _as_base_exponent(base)
             if pair is not None:
                 base, inner = pair
